@@ -102,7 +102,7 @@ CHECKS = {
              "are stored by into_return (never emptied); the builder model refuses n_times/at_least_times/each-returns for non-Clone values and stores a non-Clone value only single-use. "
              "Tied to /repo by (races) all interleavings of 2-3 threads racing for a slot on the real runtime under the controlled scheduler, (histories) live-value counts "
              "(constructed - dropped) after every step and after teardown, (type level) model well-typedness = rustc verdict for every type state x builder method x {Clone, non-Clone}. "
-             "Composite returns (owned leaves inside Option/Result/Vec/Poll/tuples) are exercised by the C17 check.",
+             "(composite) owned leaves inside Option/Result/Vec/Poll/tuples are requested through single-use and repeated-use paths with the C17 output model as oracle.",
         design_ref="DESIGN.md section 7, C12",
         technique="Coq proof (single-delivery invariant over all schedules; type-state lemmas) + scheduler-controlled races, drop-counter histories and a rustc accept/reject sweep"),
     "C13": dict(
@@ -131,6 +131,14 @@ CHECKS = {
              "neighbours), compiling them with the real macro into one crate and comparing per method what matcher, answer, caller and evaluation counters observed with the model's prediction.",
         design_ref="DESIGN.md section 7, C05",
         technique="Coq proof (induction over parameter lists; body AST under a move-semantics environment) + generated-program co-execution against the real proc macro"),
+    "C17": dict(
+        text="Machine-checked theorems (Props/C17.v): for every return type of the grammar Option/Result/Vec/Poll/tuples over owned, &T, &str, &[T], &'static leaves (any nesting) that #[unimock] "
+             "accepts, and every value passed to returns(): every request on the multi-use path, and the first request on the single-use path, observes the configured value read at the declared type "
+             "(same variants, order, count, leaf data; data behind &T seen through a reference into the mock, stable across calls); later single-use requests succeed iff no owned part lies on the "
+             "selected path, else fail with CannotReturnValueMoreThanOnce. Proved by structural induction on a Gallina transcription of the macro's kind analysis and the src/output impl table; tied per "
+             "run by rustc-checked acceptance, type_name-checked OutputKind and co-executed values of generated #[unimock] programs.",
+        design_ref="DESIGN.md section 7, C17",
+        technique="Coq proof (structural induction over the kind tree) + generated-program co-execution against the real macros; rustc probes for the acceptance boundary"),
 }
 
 NOT_YET = "check not built yet (work in progress in this session; designed in DESIGN.md section 7)"
